@@ -126,7 +126,7 @@ void enccfg_json(const enccfg_t *c, char *out, size_t n){
     c->channels,c->rate,c->mode,c->quality,c->br_max,c->br_nom,c->br_min,c->coupling_off,c->lowpass_khz,c->have_rm2,
     sig_name(c->sig),(unsigned long long)c->sigseed,c->nsamples,c->chunk,c->lazy);
 }
-static int g_enc_direct=0;
+static __thread int g_enc_direct=0;   /* per thread: encoders run concurrently in the C18 driver */
 static void enc_drain(vorbis_dsp_state *vd, vorbis_block *vb, pktlist_t *pk){
   ogg_packet op;
   if(g_enc_direct){ while(vorbis_analysis_blockout(vd,vb)==1){ if(vorbis_analysis(vb,&op)==0) pktlist_push(pk,&op); } return; }
